@@ -136,6 +136,36 @@ def rule_tags(check):
         key = "%s/%s" % (R, S._site_key(f, n))
         check.expect(not bad and kinds - {"none"}, R, key, hir.loc(n), "tag origins: %s" % ", ".join(sorted(kinds)), "tag has undocumented origin(s): %s" % ", ".join(sorted(bad)))
     check.floor(R, "tagged update_status sites", len(sites), 4)
+    # the method tag is the name that was looked up in the configuration for that very hook: the set
+    # of tag origins of the Call arm equals the set of names handed to CsiMethods::get at hook gates
+    import re
+
+    def norm(o):
+        root, proj = o
+        segs = []
+        for q in proj:
+            if q == "[]":
+                continue
+            if segs and segs[-1] == q:
+                continue
+            segs.append(q)
+        s_ = ".".join(segs)
+        s_ = re.sub(r"(?:obj\.)+", "obj.", s_)
+        s_ = re.sub(r"(?:Member\.0\.obj\.)+", "Member.0.obj.", s_)
+        return (root[:3], s_)
+
+    gate_names = set()
+    for g in prog.user_fns:
+        if not any(hir.is_call(x) and hir.callee_name(x) in S.HOOK_SOURCES for x in g.nodes()):
+            continue
+        for n in g.nodes():
+            if hir.is_call(n) and hir.callee_name(n) == "get" and "CsiMethods" in n["callee"]["path"]:
+                gate_names |= {norm(o) for o in pv.resolve_params(pv.origins(g, hir.call_args(n)[1]))}
+    for f, n in sites:
+        if S._site_key(f, n) != "Call":
+            continue
+        tags = {norm(o) for o in pv.resolve_params(pv.origins(f, hir.call_args(n)[2])) if o[0][0] == "param"}
+        check.expect(tags == gate_names and bool(tags), R, R + "/Call/tag-is-looked-up-name", hir.loc(n), "method tags = the names looked up at the hook gates (%d origins)" % len(tags), "the tag reported for method hooks is not the name that was looked up in the configuration: tags %s vs looked-up names %s" % (sorted(x[1] for x in tags - gate_names) or "(subset)", sorted(x[1] for x in gate_names - tags)))
 
 
 def _method(prog, self_suffix, name, trait=None):
@@ -308,6 +338,9 @@ def run(check):
     check.guarded("MODIFIED-HOOK", S.rule_modified_implies_hook)
     check.guarded("COUNT-ONCE", rule_count_once)
     check.guarded("TAGS", rule_tags)
+    from .. import xformrules as X
+
+    check.guarded("FANOUT", X.rule_fanout)
     check.guarded("TELEMETRY-SIBLING", rule_siblings)
     check.guarded("METRICS-SHAPE", rule_shape)
     return {
